@@ -2,7 +2,7 @@ SPECIFICATION MCSpec
 CONSTANTS
   RunIds = {1}
   Semantics = "pure"
-  ModelSet = {"conv_bias_init", "conv_bias_caller", "gru_state_init", "gru_state_caller", "lstm_state_caller", "rnn_state_init", "argmax_reduce", "expand_concat_add", "const_scaler_gemm", "prelu_slopes", "gemm_row_bias", "conv_dilated_init", "matmul_vector_weight", "defaulted_input", "logic_ops", "conv_point_init", "gemm_scaled_init", "elementwise_same_shape", "views_of_weight", "conv_kernel_caller"}
+  ModelSet = {"conv_bias_init", "conv_bias_caller", "gru_state_init", "gru_state_caller", "lstm_state_caller", "rnn_state_init", "argmax_reduce", "expand_concat_add", "const_scaler_gemm", "prelu_slopes", "gemm_row_bias", "conv_dilated_init", "matmul_vector_weight", "defaulted_input", "logic_ops", "conv_point_init", "gemm_scaled_init", "elementwise_same_shape", "views_of_weight", "conv_kernel_caller", "hidden_identities"}
   Rich = FALSE
   MaxCalls = 3
 INVARIANTS HistoryIndependent OutputsComplete
